@@ -186,6 +186,10 @@ func descArg(v reflect.Value) string {
 
 // queryMethods lists the battery's methods of a facade: exported, not a Verif* hook, not excluded by name.
 func queryMethods(facade any, onlyWithError bool) (names []string, skipped map[string]string) {
+	return queryMethodsEx(facade, onlyWithError, batteryExcluded)
+}
+
+func queryMethodsEx(facade any, onlyWithError bool, excluded map[string]string) (names []string, skipped map[string]string) {
 	skipped = map[string]string{}
 	t := reflect.TypeOf(facade)
 	for i := 0; i < t.NumMethod(); i++ {
@@ -193,7 +197,7 @@ func queryMethods(facade any, onlyWithError bool) (names []string, skipped map[s
 		if strings.HasPrefix(m.Name, "Verif") {
 			continue
 		}
-		if why, ok := batteryExcluded[m.Name]; ok {
+		if why, ok := excluded[m.Name]; ok {
 			skipped[m.Name] = why
 			continue
 		}
@@ -213,6 +217,10 @@ func queryMethods(facade any, onlyWithError bool) (names []string, skipped map[s
 // otherwise `perMethod` combinations drawn from the generator.
 func buildBattery(rt *rapid.T, facade any, p pools, perMethod int) []qcall {
 	names, _ := queryMethods(facade, false)
+	return buildBatteryFor(rt, facade, p, perMethod, names)
+}
+
+func buildBatteryFor(rt *rapid.T, facade any, p pools, perMethod int, names []string) []qcall {
 	t := reflect.TypeOf(facade)
 	var calls []qcall
 	for _, name := range names {
